@@ -72,6 +72,9 @@ def gen(ctx):
                        memo=rng.choice(["False", "True", "recursive_lit"]), pred="steps:%d" % K, fuel=K + 5)
             yield dict(kind="ev1", hist=hist, dtype="int32", scale=1, r=1, rule="nks:30", memo="False", pred="lenle:%d" % K, fuel=K + 5)
     for _ in range(ctx.n(30, 300)):
+        yield dict(kind="nf", dim=rng.choice([1, 1, 2]), N=rng.randint(3, 8), K=rng.randint(1, 5), memo=rng.choice(["False", "True", "recursive_lit"]),
+                   dtype=rng.choice(["float64", "float32"]), seed=rng.randrange(10 ** 6))
+    for _ in range(ctx.n(30, 300)):
         yield dict(kind="ufp2", dim=rng.choice([1, 1, 2]), N=rng.randint(3, 9), R=rng.choice([0, 4, 12, 128, 204, 254]),       # rules that settle from every state
                    memo=rng.choice(["False", "True", "recursive_lit"]), seed=rng.randrange(10 ** 6))
     # the rule's arguments are the same kind of values on the callable-timesteps path as on the fixed path
@@ -121,7 +124,7 @@ def _mod(c):
 
 
 def line(c):
-    if c["kind"] in ("slow", "ufp2"):
+    if c["kind"] in ("slow", "ufp2", "nf"):
         return None
     m = _mod(c)
     return (m.line(c) if m else ev1.line(c)) + " consults=1"
@@ -130,7 +133,7 @@ def line(c):
 def run_capped(c):
     import cellpylib as cpl
     ca = ev1.make_ca(c)
-    rule = Rule(c["rule"], c.get("scale", 1), clobber=bool(c.get("clobber")), mixret=bool(c.get("mixret")))
+    rule = Rule(c["rule"], c.get("scale", 1), clobber=bool(c.get("clobber")), mixret=c.get("mixret") or False)
     pred = CappedPred(c["pred"], c.get("scale", 1))
     pred.fuel = c.get("fuel", FUEL)
     try:
@@ -156,7 +159,7 @@ def run_slow(c):
 
 
 def impl(c):
-    if c["kind"] in ("slow", "ufp2"):
+    if c["kind"] in ("slow", "ufp2", "nf"):
         return "n/a"
     m = _mod(c)
     if m:
@@ -216,7 +219,23 @@ def oracle_ufp2(c):
     return None
 
 
+def oracle_nf(c):
+    """The states a callable-timesteps evolution goes through are those of the fixed-count evolution, NaN and inf included."""
+    ca = ev1.nf_automaton(c)
+    K = c["K"]
+    try:
+        dyn = ev1.nf_evolve(c, ca, lambda a, t: t <= K, c["memo"])
+        fix = ev1.nf_evolve(c, ca.copy(), K + 1, c["memo"])
+    except Exception as e:
+        return "a float automaton producing NaN / inf raised %s: %s" % (type(e).__name__, str(e)[:70])
+    if dyn.shape != fix.shape or dyn.dtype != fix.dtype or dyn.tobytes() != fix.tobytes():
+        return "callable timesteps (%d steps) differs from the fixed-count evolution on a float automaton with NaN / inf states" % K
+    return None
+
+
 def oracle(c):
+    if c["kind"] == "nf":
+        return oracle_nf(c)
     if c["kind"] == "ufp2":
         return oracle_ufp2(c)
     if c["kind"] == "slow":
